@@ -5,6 +5,11 @@ import json, os
 HERE = os.path.dirname(os.path.dirname(os.path.abspath(__file__)))
 
 CHECKS = {
+ "C02": dict(
+    design="DESIGN.md §3 C02",
+    technique="property-based testing (Hypothesis) over generated programs x inputs x configurations; oracles: recording user function + independent reference dict codec over stdlib json / PyYAML / msgpack",
+    text="Exploration: generated universes and wrapped signatures with conformant boundary-biased values (integers up to 2^200, 40-digit decimals, all Unicode planes, empty containers) are sent as JSON / YAML / MessagePack / msgpack-rpc documents built by an independent reference codec and third-party serialisers, for ignore_wrappers on/off, complex_as dict/list, validator None/soft, msgpack str/bin keys; recorded arguments and reference-decoded responses must equal what was sent/returned. Held on everything explored; not a proof.",
+    note="Trusted: stdlib json, PyYAML, msgpack (calibrated per case by a round-trip), pbt/ref_dict.py."),
  "C01": dict(
     design="DESIGN.md §3 C01",
     technique="property-based testing (Hypothesis) over generated programs x inputs x configurations; oracles: recording user function + independent schema-driven reference XML codec + libxml2 validation of the request",
